@@ -53,10 +53,12 @@ func (c *Completer) Init() {
 }
 
 func setHook(p *slip.Package, key string) {
-	if p == &Pkg ||
+	// The hook is called a second time with the package qualified name,
+	// which is a word for the completer and not a setting.
+	if !strings.Contains(key, ":") && (p == &Pkg ||
 		strings.HasPrefix(key, "*print-") ||
 		key == "*bag-time-format*" ||
-		key == "*bag-time-wrap*" {
+		key == "*bag-time-wrap*") {
 		modifiedVars[key] = true
 		updateConfigFile()
 	}
